@@ -28,6 +28,7 @@ type Clause struct {
 	Assumed bool   // hypothesis: assumed on entry of the unit, not checked at call sites
 	Def     bool   // definitional (introduction rule of a ghost predicate): assumed at call sites, not checked in the body
 	Callee  string // for atcall clauses: short key of the callee
+	Ranked  bool   // termination clause: checked only at calls of callees whose rank is not below the unit's rank
 	Group   string // clause group this clause was spliced from ("" = the function's own clause)
 }
 
@@ -61,6 +62,8 @@ type Contract struct {
 	PosNames []string          // names the clauses use for the function's parameters, by position (receiver first)
 	HasParamList bool
 	AtCalls  []*Clause         // obligations at the unit's calls of a named callee
+	Rank     int               // termination rank (0 = none): a call of a ranked callee must go to a lower rank or follow a strict decrease of the family's measure
+	NoRank   map[string]bool   // function variables whose calls are exempt from the termination obligation (hypothesis, listed in the evidence)
 	Groups   []string          // clause groups spliced into this contract (use)
 	ModGroup map[string]string // modifies entry -> group it came from
 	uses     []string
@@ -258,6 +261,30 @@ func parseContractText(pkg, file string, src []byte) ([]*Contract, error) {
 				cur.Requires = append(cur.Requires, c)
 			} else {
 				cur.Ensures = append(cur.Ensures, c)
+			}
+		case "termination":
+			// termination <measure>: at every call of a ranked callee whose rank is not below the unit's rank, the measure must
+			// be strictly below its value on entry (it never exceeds it: that is a postcondition of the family)
+			c := &Clause{Kind: "atcall", Callee: "*", Line: lineNo, File: file, Ranked: true}
+			var expr string
+			c.Label, c.Props, expr = parseLabel(rest)
+			if c.Label == "" {
+				c.Label = "term"
+			}
+			c.Text = "(" + expr + ") < old(" + expr + ")"
+			cur.AtCalls = append(cur.AtCalls, c)
+		case "rank":
+			n, err := strconv.Atoi(strings.TrimSpace(rest))
+			if err != nil || n <= 0 {
+				return nil, fmt.Errorf("%s:%d: rank <positive integer>", file, lineNo)
+			}
+			cur.Rank = n
+		case "norank":
+			if cur.NoRank == nil {
+				cur.NoRank = map[string]bool{}
+			}
+			for _, f := range strings.Fields(rest) {
+				cur.NoRank[f] = true
 			}
 		case "atcall":
 			callee, r2 := splitWord(rest)
